@@ -23,13 +23,13 @@ JVM_MODEL = {"JAVA_TOOL_OPTIONS": "-Xmx6g -XX:ParallelGCThreads=4 -Xss64m"}
 PARALLEL = 12
 
 
-def _validate(sc, files):
+def _validate(sc, files, nparts=PARALLEL):
     """V.validate_traces, but keeping what the trace spec prints about skipped sinks and drift.
     (-Xss64m: the reference is a deep composition of lazily evaluated functions; TLC's default
     thread stack overflows on batches of 6 points.)"""
     parts = []
     for f in files:
-        parts += V.split_trace(f, PARALLEL, sc)
+        parts += V.split_trace(f, nparts, sc)
     rej, kf, states, amb, drift = [], set(), 0, 0, 0
 
     def one(fp):
@@ -79,7 +79,8 @@ def run(sc, tier, seed):
     # B1: systematic chains and forks on real tasks, every sink compared by TLC
     out, meta = V.run_driver(sc, "c10", tier, seed, timeout=3000)
     R.add_meta(meta)
-    val = _validate(sc, meta["trace_files"])
+    # thorough: more, smaller parts (each JVM holds its whole part in memory), still PARALLEL at a time
+    val = _validate(sc, meta["trace_files"], PARALLEL if tier == "quick" else 6 * PARALLEL)
     R.states += val["states"]
     R.handle_validation(val)
     extra = {"amb_skipped_sinks": val["amb"], "impl_drift": {"message_changed_after_delivery_in_chain": val["drift"]},
